@@ -108,6 +108,18 @@ def ensure_streams(app: appboot.App):
                                 sample_durations_in="trun")
         mp4synth.register(app, name_, f"Synthetic, audio of {n_a} segments against 6",
                           {f"{name_}_v1": v, f"{name_}_a1": a}, timing_from=f"{name_}_v1")
+    # syn10: sample durations given by DEFAULTS – the video track's trex default is 240 and the segments whose
+    # samples last 120 / 180 ticks override it in their tfhd; the audio track uses tfhd defaults with trex 0
+    v = mp4synth.make_track("video", 240, [960, 480, 960, 720, 960], samples_per_segment=4, seed=121, track_id=1,
+                            sample_durations_in="trex")
+    a = mp4synth.make_track("audio", 48000, [192512, 96256, 192512, 144384, 192512], samples_per_segment=[188, 94, 188, 141, 188],
+                            seed=122, track_id=2, sample_durations_in="tfhd")
+    mp4synth.register(app, "syn10", "Synthetic default sample durations", {"syn10_v1": v, "syn10_a1": a}, timing_from="syn10_v1")
+    # synday: a timing reference longer than a day (timescale 1, ten segments of 9600 s = 26 h 40 min) – durations
+    # whose days component is not zero (static manifests only)
+    v = mp4synth.make_track("video", 1, [9600] * 10, samples_per_segment=4, seed=111, track_id=1)
+    a = mp4synth.make_track("audio", 100, [960000] * 10, samples_per_segment=100, seed=112, track_id=2)
+    mp4synth.register(app, "synday", "Synthetic longer than a day", {"synday_v1": v, "synday_a1": a}, timing_from="synday_v1")
     # bbbd: the bbb fixture files once more (clear and encrypted twins), with a stored DRM selection and depth:
     # a manifest requested without any option lists the encrypted Representations and writes no drm= into the
     # media URLs, so the media handlers have to apply the same stored defaults
